@@ -7,7 +7,10 @@ addition is component-wise; the coverage values come from the shared metric func
 merged from every test of the suite; every predicate contributes two branches (covered iff a
 distance VALUE is 0.0), every branch-less code object one, like compute_branch_coverage; the source
 text is read for the configured module at report time (no memoised reader); the XML totals add the
-two branch kinds.  Equality of line ids and line numbers across code objects is not decided.
+two branch kinds and, interpreted with ElementTree modelled over 8 kinds of lines, lists a line iff
+it carries anything with hits=1 exactly when something of it is covered; storing a fresh execution
+result clears the changed flag in both runners, so all coverage functions and the report read the
+same executions.  Equality of line ids and line numbers across code objects is not decided.
 """
 
 from __future__ import annotations
